@@ -14,11 +14,11 @@ CHECKS = {
   ref="DESIGN.md section 3 C15"),
  "C14": dict(
   text="Bounded symbolic model checking of the three copies of _distribute_buffer_sizes with symbolic block byte sizes (ties included): the explorer enumerates every ordering decided by the real sort/heap comparisons, and per path z3 proves 64-byte round-up, that the result is an LPT assignment, max-min load <= largest block, the 4/3 bound against a symbolic alternative assignment, agreement of the copies and independence from other state. Buffer layout relations are checked on concrete block shapes in the stand-in's byte-cell model and on real torch in replay.",
-  note="Trusted: z3 LIA; bounds n<=4 blocks on <=3 ranks (quick), n<=6/<=4 ranks (thorough); larger groups outside the claim; tie-breaking not prescribed; DTensor state placement is covered by C06's simulator, not here.",
+  note="Trusted: z3 LIA; bounds n<=4 blocks on <=3 ranks (quick), n<=6/<=4 ranks (thorough); larger groups outside the claim; tie-breaking not prescribed; the state-placement clause is decided on the rank simulator by running the DDP/HSDP/HybridShard harnesses of C06-C08 on the layouts where ownership matters (group = world, group = replicate size, group a proper divisor of it): per group exactly one rank holds each block's Kronecker state; replay on real gloo processes.",
   ref="DESIGN.md section 3 C14"),
  "C16": dict(
   text="Bounded symbolic model checking of the real flatten/unflatten on enumerated tree skeletons with symbolic string (z3 String) and integer keys: z3 decides key equality, so distinct paths -> distinct flat keys, exact restoration of nesting/key types/leaf identity and dropping of leafless sub-dicts are proved for all key values; OptimizerModule.state_dict/load_state_dict on enumerated object graphs with symbolic tensor contents.",
-  note="Trusted: json.dumps/loads replaced by an injective invertible encoding of key lists (the documented round trip), backed by a concrete adversarial-key pass through the real json; skeleton depth<=3/leaves<=3 (quick), depth<=4/leaves<=4 (thorough); key strings of length<=4.",
+  note="Trusted: json.dumps/loads replaced by an injective invertible encoding of key lists (the documented round trip), backed by a concrete adversarial-key pass through the real json (enumeration, not solver-quantified: quotes, backslashes, control characters, unicode escapes, separators, digit strings vs ints; all nestings of two and all sibling pairs) -- a change that bypasses json for some keys is only visible there; skeleton depth<=3/leaves<=3 (quick), depth<=4/leaves<=4 (thorough); key strings of length<=4; module tensors in four layouts (contiguous row, transposed view, strided column slice, 0-d).",
   ref="DESIGN.md section 3 C16"),
  "C01": dict(
   text="Bounded symbolic model checking of the real optimizer (constructor, step(), distributor, preconditioner lists) on the symbolic torch stand-in against a per-block reference model of the documented update rule: all ten continuous hyperparameters, all parameter and gradient entries (and gradient presence, scheduler changes of lr/weight decay) are solver variables; every equality regime of the hyperparameters that the code tests for is explored; after each step parameters, every checkpointable state tensor, the step counter and the arguments/timing of every inverse-root computation are proved equal to the reference (polynomial identities, z3).",
@@ -50,7 +50,7 @@ CHECKS = {
   ref="DESIGN.md section 3 C05"),
  "C10": dict(
   text="Bounded symbolic model checking of the real matrix_functions.py over exact real arithmetic with eigh/qr as environment stubs: dispatch and error cases; the scalar fast path equals the spectral value on PSD input (all three configurations); coupled Newton starts from z*A_ridge with z=(p+1)/(2|A_ridge|_F), keeps M = X^p(A+eps I) on the returned pair, reports CONVERGED only if the last computed error (of the returned M) meets the tolerance; the higher-order solver starts from A_ridge/trace, returns only if |A_ridge X^p - I|_inf <= 0.1, else raises, and restores the tf32 flag on every path. The floating-point accuracy bound of the property is NOT decided.",
-  note="Claim strength: exact-arithmetic limit (u -> 0) and control flow only; n=2, root<=2 (3 thorough), <=2 (3) iterations; norms are atoms recording their arguments; convergence to the principal root from the proved start is the cited theorem, not proved here; diagonal fast path is covered in C11.",
+  note="Claim strength: exact-arithmetic limit (u -> 0) and control flow only; n=2, root<=2 (3 thorough), <=2 (3) iterations for the coupled solvers; the eigendecomposition solver with and without the stability option on a symbolic PSD spectrum (n<=3): X = Q diag((lambda+eps)^(-1/r)) Q^T; norms are atoms recording their arguments; convergence to the principal root from the proved start is the cited theorem, not proved here; diagonal fast path is covered in C11.",
   ref="DESIGN.md section 3 C10"),
  "C11": dict(
   text="Bounded symbolic model checking of the real eigendecomposition-based inverse root over the eigh stub with arbitrary real ascending eigenvalues (zero and negative included), symbolic epsilon: every argument of the fractional power is >= epsilon on every path (finite result, eigenvalues <= eps^(-1/r) by monotonicity), the output is Q D Q^T of the decomposed matrix (A, or A+eps I with enhance_stability) hence symmetric, the float64 retry, root and shape validation; diagonal fast path equals the general path on diagonal PSD input.",
@@ -66,11 +66,11 @@ CHECKS = {
   ref="DESIGN.md section 3 C06"),
  "C07": dict(
   text="Bounded symbolic model checking, differential: each simulated shard rank runs the real FSDPDistributor (HSDP: HSDPDistributor over a simulated replicate x shard mesh with all_gather) inside the real optimizer on its flat shard with hand-built metadata; every element of every shard is proved equal to the serial optimizer run on the documented recovered sub-tensors as independent parameters, and every element of the original parameter is covered exactly once across the shard ranks. Symbolic hyperparameters, values, gradients, presence; shard boundaries enumerated (mid-row, aligned, single element, empty, inner-slice).",
-  note="Trusted: FSDP metadata is a harness input (compile_fsdp_parameter_metadata reads FSDP internals, outside the model); shapes<=12 elements, <=3 shard ranks (4 thorough), replicate 2 (3), T=2; simulator and stubs as C06/C01.",
+  note="Trusted: FSDP metadata is a harness input (compile_fsdp_parameter_metadata reads FSDP internals, outside the model); shapes<=12 elements, <=3 shard ranks (4 thorough), replicate 2 (4 thorough), num_trainers_per_group = -1 / replicate size / proper divisor, T=2 (thorough: every three-way cut of four shapes of order 2..4); BF16/FP16 communication for one step with rounding as an uninterpreted function; simulator and stubs as C06/C01.",
   ref="DESIGN.md section 3 C07"),
  "C08": dict(
   text="Bounded symbolic model checking, differential: parameters and gradients are simulator DTensors sharded on dim 0 (uneven, ranks without rows), each simulated rank runs the real FullyShardDistributor (HybridShardDistributor over a simulated 2-D mesh) in the real optimizer; every local shard is proved equal to the serial optimizer on that rank's non-empty local tensors, replicas agree, empty shards stay empty; symbolic presence including absent gradients on empty shards.",
-  note="Trusted: DTensor modelled by its local view and dim-0 placement; <=3 shard ranks (4 thorough), replicate 2 (3), T=2; simulator and stubs as C06/C01.",
+  note="Trusted: DTensor modelled by its local view and dim-0 placement; <=3 shard ranks (4 thorough), replicate 2 (4 thorough), num_trainers_per_group = -1 / replicate size / proper divisor, T=2 (thorough: every distribution of <=4 rows over three ranks); BF16/FP16 communication for one step with rounding as an uninterpreted function; simulator and stubs as C06/C01.",
   ref="DESIGN.md section 3 C08"),
 }
 NA = {
